@@ -67,6 +67,8 @@ def distinct_callee(rep, tier):
 
 def run(tier, replay=None):
   rep = common.Report(PID, tier, 'other')
+  if replay and K.replay_program_rows(rep, replay):
+    return rep.finish()
   rep.assumptions = [
       'oracle: Core/Eval.v on the un-annotated program; every annotation assignment must return that bag on SQLite',
       '@Ground is exercised with @AttachDatabase("logica_home", ":memory:")',
